@@ -1826,12 +1826,30 @@ class VM:
             pass
         return fn
 
+    def _current_native(self, fn: Any) -> Any:
+        """A built-in method kept from an earlier evaluation (var each = [].forEach)
+        was made by that evaluation's interpreter: make it again for this one, so
+        that its callbacks, limits and errors belong to the evaluation that runs."""
+        rebind = getattr(fn, "_js_rebind", None)
+        if rebind is not None and rebind[0] is not self:
+            # A bound built-in: bind the current interpreter's version again
+            return self._make_callable_method(self._current_native(rebind[1]), "bind")(
+                *rebind[2]
+            )
+        factory = getattr(fn, "_js_factory", None)
+        if factory is None or getattr(factory, "__self__", self) is self:
+            return fn
+        return self._receiver_method(
+            getattr(self, factory.__name__), fn._js_receiver, fn._js_method
+        )
+
     _MUTATING_ARRAY_METHODS = frozenset(
         ["push", "pop", "shift", "unshift", "splice", "reverse", "sort", "fill"]
     )
 
     def _for_receiver(self, fn: Any, this_val: JSValue) -> Any:
         """The built-in method fn, working on this_val instead of the value it was read from."""
+        fn = self._current_native(fn)
         factory = getattr(fn, "_js_factory", None)
         if factory is None:
             return fn
@@ -1925,6 +1943,8 @@ class VM:
                 if inner is not None:
                     bound._js_name = "bound " + inner
                     bound._js_bound_count = len(bound_args)
+                # What it takes to make this bound function again in a later evaluation
+                bound._js_rebind = (self, fn, args)
 
             return bound
 
@@ -2825,7 +2845,7 @@ class VM:
             return self._call_callback(getter, [], this_val)
         elif callable(getter):
             # A built-in used as a getter: its missing result reads as undefined
-            result = getter()
+            result = self._current_native(getter)()
             return UNDEFINED if result is None else result
         return UNDEFINED
 
@@ -2848,7 +2868,7 @@ class VM:
             self._invoke_js_function(callee, args, this_val or UNDEFINED)
         elif callable(callee):
             # Native function
-            result = callee(*args)
+            result = self._current_native(callee)(*args)
             self.stack.append(result if result is not None else UNDEFINED)
         else:
             raise JSTypeError(f"{callee} is not a function")
@@ -2869,6 +2889,7 @@ class VM:
             if getattr(method, "_js_factory", None) is not None:
                 # A built-in method stored on another object (o.m = [].join; o.m())
                 # works on the object it is called on
+                method = self._current_native(method)
                 receiver = method._js_receiver
                 if receiver is not this_val and not (
                     isinstance(receiver, (str, int, float)) and receiver == this_val
@@ -2969,7 +2990,7 @@ class VM:
                 return self.stack.pop()
             return UNDEFINED
         elif callable(callback):
-            result = callback(*args)
+            result = self._current_native(callback)(*args)
             return result if result is not None else UNDEFINED
         else:
             raise JSTypeError(f"{callback} is not a function")
